@@ -323,7 +323,7 @@ class Diagram(object):
         types = tuple(sorted((t.id, t.name, t.kind, t.core_typ, t.base, tuple(map(tuple, t.enums)), t.home) +
                              ((tuple(map(tuple, getattr(t, 'members', []))),) if t.kind == 'struct' else ())
                              for t in self.types.values()))
-        classes = tuple(sorted((c.id, c.name, c.kl, c.home,
+        classes = tuple(sorted((c.id, c.name, c.kl, c.numb, c.home,
                                 tuple((a.id, a.name, a.kind, a.dt, a.base) for a in c.attrs),
                                 tuple(sorted((o, tuple(sorted(ids))) for o, ids in c.ids.items())))
                                for c in self.classes))
@@ -1421,6 +1421,11 @@ class World(object):
         '''New key letters (the class name proper, O_OBJ.Name, stays).'''
         self.update('O_OBJ', dict(Obj_ID=obj), Key_Lett=kl)
         self.d.cls(obj).kl = kl
+
+    def e_renumber_class(self, obj, numb):
+        '''Another class number (O_OBJ.Numb); numbers need not be unique.'''
+        self.update('O_OBJ', dict(Obj_ID=obj), Numb=numb)
+        self.d.cls(obj).numb = numb
 
     def e_rename_comp(self, comp, name):
         self.update('C_C', dict(Id=comp), Name=name)
